@@ -93,7 +93,7 @@ def handleAccess (ro : Xml) (implJ : Option Json) : Except String Json := do
     | .error _ => pure (Json.mkObj base)
     | .ok vj =>
       let v ← roViewOfJson vj
-      let holds := Json.mkObj [("C15", .bool (holdsC15 ro v)), ("C16", .bool (holdsC16 ro v (storyIdsNodup ro))),
+      let holds := Json.mkObj [("C15", .bool (holdsC15 ro v)), ("C16", .bool (holdsC16 ro v)),
         ("C17", .bool (holdsC17 ro v))]
       pure (Json.mkObj (base ++ [("holds", holds)]))
 
